@@ -56,15 +56,23 @@ def build_go_tools():
 
 
 def regenerate_gen():
-    """tie 4B: regenerate TypVerif/Gen/*.lean from /repo's current working tree. Returns (ok, log)."""
+    """tie 4B: regenerate TypVerif/Gen/*.lean from /repo's current working tree.
+    Returns {generated file: [extractor errors]} (an empty list = translated completely)."""
     if not os.path.exists(EXTRACT):
-        return True, "no extractor"
+        return {}
     gen_dir = os.path.join(LEAN, "TypVerif", "Gen")
     tmp = os.path.join(WORK, "gen.tmp")
     sh(["rm", "-rf", tmp])
     os.makedirs(tmp, exist_ok=True)
     os.makedirs(gen_dir, exist_ok=True)
     rc, log = sh([EXTRACT, "-repo", REPO, "-out", tmp])
+    status = {}
+    sp = os.path.join(tmp, "status.json")
+    if os.path.exists(sp):
+        status = json.load(open(sp))
+        os.remove(sp)
+    elif rc != 0:
+        raise Internal("extractor crashed:\n" + log[-2000:])
     # write-if-changed so that lake does not rebuild needlessly; remove stale files
     produced = set(os.listdir(tmp))
     for f in os.listdir(gen_dir):
@@ -75,7 +83,7 @@ def regenerate_gen():
         dst = os.path.join(gen_dir, f)
         if not os.path.exists(dst) or open(dst).read() != new:
             open(dst, "w").write(new)
-    return rc == 0, log
+    return status
 
 
 def lake_build(targets, timeout=3000):
